@@ -2,11 +2,20 @@ package bloomfilter
 
 import (
 	"encoding/binary"
+	"errors"
 	"hash/fnv"
+	"io"
 	"math"
 	"os"
 	"sync"
 )
+
+// maxHashFuncs bounds the number of hash functions accepted from a stored filter
+// (the optimal number for a false positive rate of 1e-30 is about 100)
+const maxHashFuncs = 256
+
+// ErrInvalidFilter is returned when stored filter data does not describe itself consistently
+var ErrInvalidFilter = errors.New("invalid bloom filter data")
 
 // BloomFilter is a probabilistic data structure that is used to test whether an element
 // is a member of a set. False positives are possible, but false negatives are not.
@@ -141,9 +150,14 @@ func LoadBloomFilter(filePath string) (*BloomFilter, error) {
 	}
 	defer file.Close()
 
+	stat, err := file.Stat()
+	if err != nil {
+		return nil, err
+	}
+
 	// Read header: size, hash functions, expected elements, insertions
 	header := make([]byte, 32)
-	if _, err := file.Read(header); err != nil {
+	if _, err := io.ReadFull(file, header); err != nil {
 		return nil, err
 	}
 
@@ -152,9 +166,19 @@ func LoadBloomFilter(filePath string) (*BloomFilter, error) {
 	expectedN := binary.LittleEndian.Uint64(header[16:24])
 	insertions := binary.LittleEndian.Uint64(header[24:32])
 
+	// The header carries no checksum: before allocating or hashing with it, make
+	// sure it describes exactly the bit array that follows (a damaged size would
+	// otherwise allocate up to 2^61 bytes or divide by zero, a damaged number of
+	// hash functions would loop for ever)
+	byteLen := size/8 + (size%8+7)/8
+	if size == 0 || hashFuncs == 0 || hashFuncs > maxHashFuncs ||
+		stat.Size() < int64(len(header)) || byteLen != uint64(stat.Size())-uint64(len(header)) {
+		return nil, ErrInvalidFilter
+	}
+
 	// Read bit array
-	bits := make([]byte, (size+7)/8)
-	if _, err := file.Read(bits); err != nil {
+	bits := make([]byte, byteLen)
+	if _, err := io.ReadFull(file, bits); err != nil {
 		return nil, err
 	}
 
